@@ -69,20 +69,22 @@ inductive FoldRes where
 
 def chk (r : Int) : FoldRes := if InRange r then .val r else .panic
 
-/-- `evaluate_bin_op` (conditional_constant_propagation.rs:9-42), dev profile: `+ - *` panic on
-overflow, `MIN / -1` and `MIN % -1` panic in every profile, `<<`/`>>` panic on a shift amount
-outside `0..32`. -/
+/-- `evaluate_bin_op` (conditional_constant_propagation.rs:9-42) after `fix:` 3b705a0: `+ - *`
+wrap (`wrapping_*`), `/` is `checked_div` (declines for `/0` and `MIN / -1`), `%` is
+`wrapping_rem`, shift counts are masked (`wrapping_shl/shr`). It can no longer panic.
+(Before the fix: unchecked `+ - * / % <<`, which panicked in the dev profile — and for `MIN / -1`,
+`MIN % -1` in every profile.) -/
 def evalImpl (op : Op) (a b : Int) : FoldRes :=
   match op with
-  | .mul => chk (a * b)
-  | .div => if b = 0 then .nofold else if a = -2147483648 ∧ b = -1 then .panic else .val (Int.tdiv a b)
-  | .mod => if b = 0 then .nofold else if a = -2147483648 ∧ b = -1 then .panic else .val (Int.tmod a b)
-  | .add => chk (a + b)
-  | .sub => chk (a - b)
+  | .mul => .val (wrap32 (a * b))
+  | .div => if b = 0 ∨ (a = -2147483648 ∧ b = -1) then .nofold else .val (Int.tdiv a b)
+  | .mod => if b = 0 then .nofold else .val (Int.tmod a b)
+  | .add => .val (wrap32 (a + b))
+  | .sub => .val (wrap32 (a - b))
   | .land => .val (bv a &&& bv b).toInt
   | .lor => .val (bv a ||| bv b).toInt
-  | .shl => if 0 ≤ b ∧ b < 32 then .val (bv a <<< b.toNat).toInt else .panic
-  | .shr => if 0 ≤ b ∧ b < 32 then .val (bv a >>> b.toNat).toInt else .panic
+  | .shl => .val (bv a <<< (b % 32).toNat).toInt
+  | .shr => .val (bv a >>> (b % 32).toNat).toInt
   | .xor => .val (bv a ^^^ bv b).toInt
   | .lt => .val (b2i (decide (a < b)))
   | .le => .val (b2i (decide (a ≤ b)))
@@ -197,11 +199,13 @@ def Op.isCmp : Op → Bool
   | .lt | .le | .gt | .ge | .eq | .ne => true
   | _ => false
 
-/-- `merge_binary_expression(outer, inner = (innerOp, x, c1), c2)` (…:51-97), dev profile. -/
+/-- `merge_binary_expression(outer, inner = (innerOp, x, c1), c2)` (…:51-97), dev profile.
+`+`/`*` wrap since `fix:` 3b705a0; the comparison arm still computes `c2 - c1` unchecked
+(finding C02-F3 is open: the golden test `binary_sequence_tests` pins the merge of `<`). -/
 def mergeBinary (outer inner : Op) (c1 c2 : Int) : MergeRes :=
   match outer with
-  | .add => if inner = .add then chkM .add (c1 + c2) else .none
-  | .mul => if inner = .mul then chkM .mul (c1 * c2) else .none
+  | .add => if inner = .add then .merged .add (wrap32 (c1 + c2)) else .none
+  | .mul => if inner = .mul then .merged .mul (wrap32 (c1 * c2)) else .none
   | .lt | .le | .gt | .ge | .eq | .ne => if inner = .add then chkM outer (c2 - c1) else .none
   | _ => .none
 
@@ -226,23 +230,26 @@ inductive TripRes where
   | panic
   deriving DecidableEq, Repr
 
-/-- `analyze_number_of_iterations_to_break_less_than_guard`. -/
-def tripLT (i0 step bound : Int) : TripRes :=
+/-- `analyze_number_of_iterations_to_break_less_than_guard` after `fix:` 0934671: computed in
+64 bits (no intermediate can overflow), declined when the counter would pass `maxFinal` (i.e. wrap
+around in 32 bits) before leaving the guard, or when the count does not fit `i32`. -/
+def tripLT (i0 step bound maxFinal : Int) : TripRes :=
   if i0 ≥ bound then .count 0
   else if step ≤ 0 then .unknown
   else
     let d := bound - i0
-    if ¬ InRange d then .panic
-    else .count (Int.tdiv d step + (if Int.tmod d step ≠ 0 then 1 else 0))
+    let n := Int.tdiv d step + (if Int.tmod d step ≠ 0 then 1 else 0)
+    if i0 + step * n > maxFinal then .unknown
+    else if n > 2147483647 then .unknown
+    else .count n
 
-/-- `analyze_number_of_iterations_to_break_guard`; every argument expression is evaluated
-(with overflow checks) before the call. -/
+/-- `analyze_number_of_iterations_to_break_guard` (all four guard kinds; `>`/`>=` by negation). -/
 def tripCount (g : Guard) (i0 step bound : Int) : TripRes :=
   match g with
-  | .lt => tripLT i0 step bound
-  | .le => if InRange (bound + 1) then tripLT i0 step (bound + 1) else .panic
-  | .gt => if InRange (-i0) ∧ InRange (-step) ∧ InRange (-bound) then tripLT (-i0) (-step) (-bound) else .panic
-  | .ge => if InRange (-i0) ∧ InRange (-step) ∧ InRange (bound - 1) ∧ InRange (-(bound - 1)) then tripLT (-i0) (-step) (-(bound - 1)) else .panic
+  | .lt => tripLT i0 step bound 2147483647
+  | .le => tripLT i0 step (bound + 1) 2147483647
+  | .gt => tripLT (-i0) (-step) (-bound) 2147483648
+  | .ge => tripLT (-i0) (-step) (-(bound - 1)) 2147483648
 
 /-- The value of the counter after `k` executions of `i' = i + step` on the target. -/
 def iterW (i0 step : Int) : Nat → Int
@@ -293,8 +300,8 @@ def runOrig (L : ObsLoop) : Nat → Int → Int → List Int → Option (List In
 /-- Number of derived induction variables hanging off `i` (`t = i*m; j = t + c` gives two). -/
 def ObsLoop.singleDerived (L : ObsLoop) : Bool := L.c = 0 ∨ L.m = 1
 
-/-- `merge_invariant_multiplication_for_loop_optimization` on two literals (dev profile). -/
-def mergeMul (a b : Int) : FoldRes := chk (a * b)
+/-- `merge_invariant_multiplication_for_loop_optimization` on two literals (wraps since `fix:` 3b705a0). -/
+def mergeMul (a b : Int) : FoldRes := .val (wrap32 (a * b))
 
 inductive LoopRes where
   | out (printed : List Int) (ret : Int)
@@ -338,5 +345,67 @@ def runOptimised (L : ObsLoop) (fuel : Nat) : LoopRes :=
       toRes (runStrength L stepJ fuel L.i0 j0 0 [])
 
 def runOriginal (L : ObsLoop) (fuel : Nat) : LoopRes := toRes (runOrig L fuel L.i0 0 [])
+
+/-! ## Loops with several basic induction variables and strength reduction of all derived ones
+
+```
+while (v_0 = init_0, …, v_{k-1} = init_{k-1}) {
+  cc = v_gi (invert G) bound; if cc { break 0 }
+  print(v_gi)
+  for each derived d = (base, m, c):   t = v_base * m; d = t + c   (or the one-statement forms); print(d)
+  v_t' = v_t + step_t
+}
+```
+`loop_strength_reduction.rs:38-69` replaces every derived variable by a new loop variable whose
+initial value is `m * init(base) + c` for its ASSOCIATED base variable (`basic_induction_variable_map
+.get(&derived.base_name)`) and whose stride is `step(base) * m`. -/
+
+structure Derived where
+  base : Nat
+  m : Int
+  c : Int
+  deriving Repr, DecidableEq
+
+structure MultiLoop where
+  ivs : List (Int × Int)      -- (initial value, stride) of each basic induction variable
+  gi : Nat                    -- index of the guarded one
+  g : Guard
+  bound : Int
+  ds : List Derived
+  deriving Repr
+
+/-- `d` as the unoptimised body computes it from the current value `i` of its base. -/
+def derivedOf (m c i : Int) : Int :=
+  if c = 0 then mulT i m else if m = 1 then addT i c else addT (mulT i m) c
+
+/-- value of basic induction variable `b` at iteration `k` -/
+def ivVal (ivs : List (Int × Int)) (b k : Nat) : Int :=
+  match ivs[b]? with
+  | some (i0, st) => iterW i0 st k
+  | none => 0
+
+def derivedVal (ivs : List (Int × Int)) (d : Derived) (k : Nat) : Int :=
+  derivedOf d.m d.c (ivVal ivs d.base k)
+
+/-- initial value and stride of the loop variable that replaces `d` (prefix statements
+`_t = m * init(base); init' = c + _t`, stride merged at compile time with wrap-around). -/
+def srParams (ivs : List (Int × Int)) (d : Derived) : Option (Int × Int) :=
+  (ivs[d.base]?).map fun p => (addT d.c (mulT d.m p.1), wrap32 (p.2 * d.m))
+
+def srVal (ivs : List (Int × Int)) (d : Derived) (k : Nat) : Int :=
+  match srParams ivs d with
+  | some (j0, sj) => iterW j0 sj k
+  | none => 0
+
+/-- printed trace of the loop, parameterised by how derived values are obtained -/
+def runMulti (val : Derived → Nat → Int) (L : MultiLoop) : Nat → Nat → List Int → Option (List Int)
+  | 0, _, _ => none
+  | fuel + 1, k, acc =>
+    if L.g.holds (ivVal L.ivs L.gi k) L.bound then
+      runMulti val L fuel (k + 1) (acc ++ [ivVal L.ivs L.gi k] ++ L.ds.map (fun d => val d k))
+    else some acc
+
+def runMultiOrig (L : MultiLoop) (fuel : Nat) : Option (List Int) := runMulti (derivedVal L.ivs) L fuel 0 []
+def runMultiOpt (L : MultiLoop) (fuel : Nat) : Option (List Int) := runMulti (srVal L.ivs) L fuel 0 []
 
 end SamVerif.Opt
